@@ -317,7 +317,8 @@ theorem treeBelowB_sound {look : Ticket → Option Elem} : ∀ (f : Nat) (self :
 /-! ### undo of `Set` over / `Remove` of a member whose subtree is a tree of live elements -/
 
 theorem member_facts {h : Hist} (fr : Fresh h) {p u : Ticket} {k : String} {ue : Elem}
-    (hp : isObj h.doc p = true) (hk : winner h.doc p k = some u) (hu : h.doc u = some ue) :
+    (hp : isObj h.doc p = true) (hk : winner h.doc p k = some u) (hu : h.doc u = some ue) (hpu : p ≠ u)
+    (horph : orphaned (kill h.doc (some u)) noTw orphanFuel p = false) :
     ue.removed = false ∧ ue.parent = some p := by
   obtain ⟨H, w⟩ := fr.wf
   obtain ⟨pe, keys, member, hd, hb, hw⟩ := isObj_winner hp k
@@ -325,7 +326,12 @@ theorem member_facts {h : Hist} (fr : Fresh h) {p u : Ticket} {k : String} {ue :
   obtain ⟨hlu, m, hm, hmc⟩ := liveMember_some hk
   obtain ⟨ue', hue', hur⟩ := live_elem hlu
   rw [hu] at hue'; injection hue' with hue'; subst hue'
-  have := (w.objMem _ _ _ _ _ _ hd hb hm).2.2
+  have hpr : pe.removed = false := by
+    have hk0 : kill h.doc (some u) p = some pe := by
+      have : ¬ u = p := fun hx => hpu hx.symm
+      simp [kill, this, hd]
+    exact (orphaned_root_removed (n := 63) horph hk0).1
+  have := (w.objMem _ _ _ _ _ _ hd hpr hb hm).2.2
   rw [hmc] at this
   exact ⟨hur, (w.par _ _ hu).trans this⟩
 
@@ -337,8 +343,8 @@ theorem undo_do_set_overwrite_container_tree {h : Hist} (fr : Fresh h) {p u : Ti
     (horph : orphaned (kill h.doc (some u)) noTw orphanFuel p = false) (fuel : Nat) :
     marshal (undo (doChange h [.set p k (UVal.ofVal v h.next) h.next])).doc fuel rootId =
       marshal h.doc fuel rootId := by
-  obtain ⟨hur, hup⟩ := member_facts fr hp hk hu
   simp only [List.mem_cons, not_or] at hpS
+  obtain ⟨hur, hup⟩ := member_facts fr hp hk hu hpS.1 horph
   exact undo_do_set_overwrite_container_core fr hp hv hk
     (copyStable_of_tree hu hur hup tree hnd hpS.1 hpS.2 horph) fuel
 
@@ -349,8 +355,8 @@ theorem undo_do_delete_container_tree {h : Hist} (fr : Fresh h) {p u : Ticket} {
     (hpS : p ∉ u :: (copyBody h.doc copyFuel u ue.body).2.map (·.1))
     (horph : orphaned (kill h.doc (some u)) noTw orphanFuel p = false) (fuel : Nat) :
     marshal (undo (doChange h [.remove p u h.next])).doc fuel rootId = marshal h.doc fuel rootId := by
-  obtain ⟨hur, hup⟩ := member_facts fr hp hk hu
   simp only [List.mem_cons, not_or] at hpS
+  obtain ⟨hur, hup⟩ := member_facts fr hp hk hu hpS.1 horph
   exact undo_do_delete_container_core fr hp hk
     (copyStable_of_tree hu hur hup tree hnd hpS.1 hpS.2 horph) fuel
 
